@@ -284,6 +284,15 @@ func Run(tier string) int {
 			}
 		}
 	}
+	for _, a := range wideArithAtoms() {
+		n := ref.A(a)
+		t := n.Text()
+		if !seenText[t] {
+			seenText[t] = true
+			cases = append(cases, caseT{n, t, []string{"id", "bytes", "port"}})
+			famCounts["number filters summing three distinct variables (single field and shorthands, bounds and ranges)"]++
+		}
+	}
 	// time filters whose value is another time field of the same stream plus or minus a duration: as a single
 	// value, as lower / upper bound and as a range, plain and negated
 	for _, a := range timeArithAtoms() {
@@ -516,7 +525,8 @@ func arithAtoms() []*ref.Atom {
 	}
 	consts := []int64{0, 1, 2, 3, 5, -1, -2, -3, -5}
 	var out []*ref.Atom
-	for _, key := range vars {
+	// "bytes" is the shorthand for "cbytes or sbytes": the value is translated once per field
+	for _, key := range []string{"cbytes", "sbytes", "bytes"} {
 		for _, sum := range sums {
 			for _, k := range consts {
 				var sb strings.Builder
@@ -552,11 +562,109 @@ func arithAtoms() []*ref.Atom {
 					}
 					return get(key), e
 				}
+				if key == "bytes" {
+					both := func(rel func(v, e int64) bool) func(r *ref.Rec) bool {
+						return func(r *ref.Rec) bool {
+							_, e := val(r)
+							return rel(int64(r.CBytes), e) || rel(int64(r.SBytes), e)
+						}
+					}
+					out = append(out,
+						&ref.Atom{Text: key + ":" + expr, Eval: both(func(v, e int64) bool { return v == e })},
+						&ref.Atom{Text: key + ":" + expr + ":", Eval: both(func(v, e int64) bool { return v >= e })},
+						&ref.Atom{Text: key + "::" + expr, Eval: both(func(v, e int64) bool { return v <= e })},
+					)
+					continue
+				}
 				out = append(out,
 					&ref.Atom{Text: key + ":" + expr, Eval: func(r *ref.Rec) bool { v, e := val(r); return v == e }},
 					&ref.Atom{Text: key + ":" + expr + ":", Eval: func(r *ref.Rec) bool { v, e := val(r); return v >= e }},
 					&ref.Atom{Text: key + "::" + expr, Eval: func(r *ref.Rec) bool { v, e := val(r); return v <= e }},
 				)
+			}
+		}
+	}
+	return out
+}
+
+// wideArithAtoms: number filters whose value sums THREE DISTINCT variables (id, byte counts, ports) with signs and a
+// small constant, for a single-field key and for the two shorthands; also ranges whose two bounds are such sums.
+func wideArithAtoms() []*ref.Atom {
+	vars := []string{"id", "cbytes", "sbytes", "cport", "sport"}
+	get := func(r *ref.Rec, n string) int64 {
+		switch n {
+		case "id":
+			return int64(r.ID)
+		case "cbytes":
+			return int64(r.CBytes)
+		case "sbytes":
+			return int64(r.SBytes)
+		case "cport":
+			return int64(r.CPort)
+		}
+		return int64(r.SPort)
+	}
+	type sumT struct {
+		text string
+		val  func(r *ref.Rec) int64
+	}
+	var sums []sumT
+	for a := 0; a < len(vars); a++ {
+		for b := a + 1; b < len(vars); b++ {
+			for c := b + 1; c < len(vars); c++ {
+				for sg := 0; sg < 4; sg++ {
+					for _, k := range []int64{0, 1, -80} {
+						va, vb, vc, sb, sc := vars[a], vars[b], vars[c], int64(1), int64(1)
+						t := "@" + va + "@"
+						if sg&1 != 0 {
+							sb = -1
+							t += "-@" + vb + "@"
+						} else {
+							t += "+@" + vb + "@"
+						}
+						if sg&2 != 0 {
+							sc = -1
+							t += "-@" + vc + "@"
+						} else {
+							t += "+@" + vc + "@"
+						}
+						if k > 0 {
+							t += fmt.Sprintf("+%d", k)
+						} else if k < 0 {
+							t += fmt.Sprint(k)
+						}
+						k := k
+						sums = append(sums, sumT{t, func(r *ref.Rec) int64 { return get(r, va) + sb*get(r, vb) + sc*get(r, vc) + k }})
+					}
+				}
+			}
+		}
+	}
+	fields := map[string][]string{"cport": {"cport"}, "port": {"cport", "sport"}, "bytes": {"cbytes", "sbytes"}, "id": {"id"}}
+	var out []*ref.Atom
+	for _, key := range []string{"cport", "port", "bytes", "id"} {
+		fs := fields[key]
+		any := func(rel func(v int64, r *ref.Rec) bool) func(r *ref.Rec) bool {
+			return func(r *ref.Rec) bool {
+				for _, f := range fs {
+					if rel(get(r, f), r) {
+						return true
+					}
+				}
+				return false
+			}
+		}
+		for i, sm := range sums {
+			sm := sm
+			out = append(out,
+				&ref.Atom{Text: key + ":" + sm.text, Eval: any(func(v int64, r *ref.Rec) bool { return v == sm.val(r) })},
+				&ref.Atom{Text: key + ":" + sm.text + ":", Eval: any(func(v int64, r *ref.Rec) bool { return v >= sm.val(r) })},
+				&ref.Atom{Text: key + "::" + sm.text, Eval: any(func(v int64, r *ref.Rec) bool { return v <= sm.val(r) })},
+			)
+			// a range between two sums (every 7th pair)
+			if i%7 == 0 {
+				hi := sums[(i*5+3)%len(sums)]
+				out = append(out, &ref.Atom{Text: key + ":" + sm.text + ":" + hi.text, Eval: any(func(v int64, r *ref.Rec) bool { return v >= sm.val(r) && v <= hi.val(r) })})
 			}
 		}
 	}
